@@ -92,6 +92,13 @@ def generate(chk, quick, seed):
         rec = rec[:500]
     # with the keyword under ansi; without it under the dialects that have none
     cases += rec + [dict(c, recursive_kw=False, dialect=d) for i, c in enumerate(rec) for d in (["tsql", "oracle", "db2"][i % 3],)]
+    # derived tables in the branches of a set operation (every branch a scope of its own: with aliases restarting per scope the
+    # branches re-use each other's aliases)
+    r = chk.tlc("Stmt", cfg(chk, "genu", 11, kinds=("insert",), known=ALL_DEV, emit=True, clauses={"union", "ubranch"}, tbl=("a", "b"), ctes=("x",),
+                            schemas=("none",), maxcte=0, maxrel=1, maxdepth=2),
+                "generate: derived tables in the branches of a set operation", workers=1, coverage=False, timeout=5000)
+    ub = [c for c in r.cases("CASE") if sum(1 for e in c["prog"] if e["e"] == "sub") >= 2 and any(e["e"] in ("union", "ubranch") for e in c["prog"])]
+    cases += [dict(c, alias_scope="local") for c in ub] + ub
     n_exh = len(cases)
     r = chk.tlc("Stmt", cfg(chk, "gensim", 16, known=ALL_DEV, emit=True, maxdepth=4, maxrel=3, maxcte=2, invariants=["EmitCase"], clauses=EVERY_CLAUSE),
                 "generate: simulated deeper programs (depth 4)", workers=1, coverage=False,
